@@ -156,10 +156,126 @@ func runC18Crossing(rc *RC) {
 	rc.Check("C18.c8", "stuck-after-teardown", len(stuck) == 0, "tasks still blocked after teardown: %v", stuck)
 }
 
+// runC18Overlap: two or three goroutines of the application use one Channel at the same time: overlapping Join calls
+// (and a Leave at the end). The room answers every request it reads, so every call must come back with the room's
+// answer; the calls' contexts live much longer than the room takes.
+func runC18Overlap(rc *RC) {
+	ch := rc.Ch
+	strat := rc.S.ConfigureStrategy()
+	e := rc.NewE2(E2Opts{Chunk: ch.Chance("workload", 1, 2)})
+	if e == nil {
+		return
+	}
+	invites := 0
+	client := &muc.Client{HandleInvite: func(muc.Invitation) { invites++ }, HandleUserPresence: func(stanza.Presence, muc.Item) {}}
+	serveT := e.Serve(mux.New(e.NS, muc.HandleClient(client)))
+	room := "room0@conf.example.net/nick"
+	n := 2 + ch.Int("workload", 2)
+	answerDelay := []time.Duration{0, 0, 5 * time.Millisecond, 60 * time.Millisecond, 400 * time.Millisecond}[ch.Int("workload", 5)]
+	leaveFirst := ch.Chance("workload", 1, 2)
+	rc.Describe("overlap strategy=%s callers=%d answer-delay=%v leave-first=%v", strat, n, answerDelay, leaveFirst)
+	rc.CaseKey = fmt.Sprint("overlap", n, leaveFirst)
+	answers := 0
+	peer := rc.Spawn("peer", func() {
+		d := xml.NewDecoder(e.Peer)
+		depth := 0
+		for {
+			tok, err := d.Token()
+			if err != nil {
+				return
+			}
+			switch t := tok.(type) {
+			case xml.StartElement:
+				depth++
+				if depth == 2 && t.Name.Local == "presence" {
+					if answerDelay > 0 {
+						simrt.Sleep(answerDelay)
+					}
+					if (Elem{Start: t}).Attr("type") == "unavailable" {
+						e.PeerWrite(fmt.Sprintf(`<presence from="%s" type="unavailable"><x xmlns="http://jabber.org/protocol/muc#user"><item affiliation="member" role="none"/><status code="110"/></x></presence>`, room))
+					} else {
+						e.PeerWrite(fmt.Sprintf(`<presence from="%s"><x xmlns="http://jabber.org/protocol/muc#user"><item affiliation="member" role="participant"/><status code="110"/></x></presence>`, room))
+					}
+					answers++
+				}
+			case xml.EndElement:
+				depth--
+			}
+		}
+	})
+	peer.Daemon = true
+	var chn *muc.Channel
+	var err0 error
+	first := rc.Spawn("app", func() {
+		ctx, cancel := context.WithTimeout(e.Ctx, 20*time.Second)
+		chn, err0 = client.Join(ctx, jid.MustParse(room), e.Sess)
+		if err0 == nil && leaveFirst {
+			err0 = chn.Leave(ctx, "brb")
+		}
+		simrt.Settle(cancel, "h:cancel")
+	})
+	rc.S.Run(func() bool { return first.Done() }, 200000, time.Minute)
+	if !first.Done() || err0 != nil || chn == nil {
+		rc.Check("C18.c8", "first-join-failed:overlap", false, "the first join (and leave) of the overlap scenario did not succeed: done=%v err=%v stuck %v", first.Done(), err0, rc.S.Stuck())
+		rc.Teardown()
+		return
+	}
+	// the session has taken in everything so far
+	rc.S.Run(func() bool { return strings.HasPrefix(serveT.Site, "read:") }, 20000, time.Second)
+	errs := make([]error, n)
+	done := make([]bool, n)
+	var tasks []*simrt.Task
+	for i := 0; i < n; i++ {
+		i := i
+		off := time.Duration(ch.Range("workload", 0, 12)) * 5 * time.Millisecond
+		tasks = append(tasks, rc.Spawn(fmt.Sprintf("caller%d", i), func() {
+			simrt.Sleep(off)
+			ctx, cancel := context.WithTimeout(e.Ctx, 30*time.Second)
+			errs[i] = chn.Join(ctx)
+			simrt.Settle(cancel, "h:cancel")
+			done[i] = true
+		}))
+	}
+	rc.Fire("overlapping-joins")
+	st := rc.S.Run(func() bool {
+		for _, t := range tasks {
+			if !t.Done() {
+				return false
+			}
+		}
+		return true
+	}, 400000, 3*time.Minute)
+	rc.Evals["C18.c1"]++
+	for i := range tasks {
+		if !done[i] {
+			rc.Failf("C18.c8", "overlapping-join-stuck", "caller %d of %d overlapping Join calls on one Channel has not returned: status %v, stuck %v", i, n, st, rc.S.Stuck())
+		} else if errs[i] != nil {
+			rc.Failf("C18.c3", "overlapping-join-fails", "caller %d of %d overlapping Join calls on one Channel returned %v although the room answered every request it got (%d answers) well within the call's 30 s", i, n, errs[i], answers)
+		}
+	}
+	rc.Spawn("invite", func() {
+		e.PeerWrite(`<message from="roomx@conf.example.net"><x xmlns="http://jabber.org/protocol/muc#user"><invite from="friend@example.net"/></x></message>`)
+	})
+	rc.S.Run(func() bool { return invites > 0 }, 20000, time.Minute)
+	rc.Evals["C18.c8"]++
+	if invites != 1 && serveT.Panic == nil {
+		rc.Failf("C18.c8", "session-not-served-after-overlap", "an invitation sent after the calls was delivered %d times: the serve loop is stuck %v", invites, rc.S.Stuck())
+	}
+	rc.Spawn("peer-close", func() { e.PeerWrite(e.CloseTag()) })
+	rc.S.Run(func() bool { return e.ServeDone }, 20000, time.Minute)
+	stuck := rc.Teardown()
+	rc.CheckPanics("C18.c8")
+	rc.Check("C18.c8", "stuck-after-teardown", len(stuck) == 0, "tasks still blocked after teardown: %v", stuck)
+}
+
 func runC18(rc *RC) {
 	ch := rc.Ch
 	if ch.Chance("workload", 1, 8) {
 		runC18Crossing(rc)
+		return
+	}
+	if ch.Chance("workload", 1, 8) {
+		runC18Overlap(rc)
 		return
 	}
 	strat := rc.S.ConfigureStrategy()
